@@ -147,7 +147,11 @@ impl<'a> Name<'a> {
                     return Ok(());
                 }
                 std::collections::hash_map::Entry::Vacant(e) => {
-                    e.insert(out.stream_position()? as usize);
+                    // a compression pointer holds a 14 bits offset, later positions can't be referenced
+                    let position = out.stream_position()? as usize;
+                    if position <= !POINTER_MASK_U16 as usize {
+                        e.insert(position);
+                    }
                     out.write_all(&[label.len() as u8])?;
                     out.write_all(&label.data)?;
                 }
